@@ -26,6 +26,7 @@ int main(int argc, char **argv) {
     if (ctx.engine == "fwd") run_fwd_case(ctx, k, r, d);
     else if (ctx.engine == "pool") run_pool_case(ctx, k, r, d);
     else if (ctx.engine == "chain") run_chain_case(ctx, k, r, d);
+    else if (ctx.engine == "bwd") run_bwd_case(ctx, k, r, d);
     else {
       fprintf(stderr, "unknown engine\n");
       return 2;
